@@ -36,6 +36,7 @@ ASSUMPTIONS = [
     'subsample-by-id at full depth is used only on tables without all-zero '
     'vectors (it drops them by design)',
 ]
+ANCHORS = ['Table.__eq__', 'Table.descriptive_equality', 'Table._data_equality', 'Table._get_row', 'Table._get_col']
 REQUIRED = ['pairs_compared', 'cell_queries_on_fresh_layout', 'derived_vs_rebuilt', 'accessor_interleavings',
             'single_difference_pairs', 'tiny_value_difference_pairs',
             'exports_compared_tsv', 'exports_compared_json',
